@@ -86,23 +86,6 @@ PROPS["C12"] = {
     "assumptions": ["the single-session oracle feeds the same snippets to one non-interactive bash with expand_aliases on; a detached step is a subshell there", "process-specific values ($$, BASHPID, SHLVL, RANDOM) are not probed"],
 }
 
-MD_TB = [
-    KERNEL,
-    "the theorem statements in lean/ScrutModel/Props/C06.lean (and the relation Covers in Model/MarkdownSpec.lean) being a faithful reading of the property",
-    CORR,
-    "hand-written models lean/ScrutModel/Model/Markdown.lean (str::lines, extract_code_block_start with byte-offset slicing, MarkdownIterator, extract_title, MarkdownParser::parse) and Model/LineParser.lean (LineParser), tied to src/parsers/markdown.rs and line_parser.rs by behavioural correspondence only",
-    "parameters of the model, supplied per case by the harness from the real code: the Unicode class \\p{L} (regex crate), ExpectationMaker::parse accepting a line, serde_yaml accepting a front-matter / inline configuration text and the layered configuration it yields (opaque values; layering is C16, YAML is C17)",
-    "Unicode White_Space (char::is_whitespace = regex \\s) is written out in the model",
-    "src/bin/utils/file_parser.rs (choosing the parser by file extension, reading the file) is not modelled",
-    RUSTC,
-]
-MD_RULE = (
-    "documents through the real MarkdownParser::parse vs the model: (1) 30k (thorough 400k) seeded AST-directed documents of <= 9 items (blank, prose incl. backtick-led lines, paragraph, heading, front-matter, foreign blocks with 3-6 backticks and any info string, scrut blocks with config/comments/multi-line commands/expectations/exit code, blocks without command; CRLF and missing final newline variants) with the expected tests known by construction; "
-    "(2) every line-prefix (up to 12 lines) of such documents, expected tests = complete items + the cut construct read to the end; (3) seeded malformed documents (a fence line dropped, a line inserted, cut at any character); "
-    "(4) exhaustive: all documents of <= 5 (thorough 6) lines over a 15-line alphabet; (5) exhaustive: all fence lines ``` / `` + <= 6 (thorough 7) characters over {`,scrut,{,},space,e-acute,CR} in front of a fixed body; (6) fixed witnesses of stricter readings. "
-    "Compared per test: title, shell expression, expectation texts, exit code, line number, layered configuration; document configuration; error kind and line. non-trivial = at least two lines starting with ```; distinct = distinct model op line"
-)
-PROPS["C06"] = {"rule": MD_RULE, "trusted_base": MD_TB, "assumptions": ["the Lean model is tied to the Rust code by differential execution, not by translation", "expectation parsing, YAML and the Unicode letter class enter the model as per-case verdicts computed by the real code"]}
 
 YAML_TB = [
     KERNEL,
@@ -167,7 +150,112 @@ PROPS["C19"] = {"rule": RENDER_RULE, "trusted_base": RENDER_TB, "assumptions": [
     "a DiffLine's output line contains no embedded newline (the matcher splits at newlines) and an expectation's text is one line",
 ]}
 
+MD_TB = [
+    KERNEL,
+    "the theorem statements in lean/ScrutModel/Props/C06.lean (and the relation Covers in Model/MarkdownSpec.lean) being a faithful reading of the property",
+    CORR,
+    "hand-written models lean/ScrutModel/Model/Markdown.lean (str::lines, extract_code_block_start with byte-offset slicing, MarkdownIterator, extract_title, MarkdownParser::parse) and Model/LineParser.lean (LineParser), tied to src/parsers/markdown.rs and line_parser.rs by behavioural correspondence only",
+    "parameters of the model, supplied per case by the harness from the real code: the Unicode class \\p{L} (regex crate), ExpectationMaker::parse accepting a line, serde_yaml accepting a front-matter / inline configuration text and the layered configuration it yields (opaque values; layering is C16, YAML is C17)",
+    "Unicode White_Space (char::is_whitespace = regex \\s) is written out in the model",
+    "src/bin/utils/file_parser.rs (choosing the parser by file extension, reading the file) is not modelled",
+    RUSTC,
+]
+MD_RULE = (
+    "documents through the real MarkdownParser::parse vs the model: (1) 30k (thorough 400k) seeded AST-directed documents of <= 9 items (blank, prose incl. backtick-led lines, paragraph, heading, front-matter, foreign blocks with 3-6 backticks and any info string, scrut blocks with config/comments/multi-line commands/expectations/exit code, blocks without command; CRLF and missing final newline variants) with the expected tests known by construction; "
+    "(2) every line-prefix (up to 12 lines) of such documents, expected tests = complete items + the cut construct read to the end; (3) seeded malformed documents (a fence line dropped, a line inserted, cut at any character); "
+    "(4) exhaustive: all documents of <= 5 (thorough 6) lines over a 15-line alphabet; (5) exhaustive: all fence lines ``` / `` + <= 6 (thorough 7) characters over {`,scrut,{,},space,e-acute,CR} in front of a fixed body; (6) fixed witnesses of stricter readings. "
+    "Compared per test: title, shell expression, expectation texts, exit code, line number, layered configuration; document configuration; error kind and line. non-trivial = at least two lines starting with ```; distinct = distinct model op line"
+)
+PROPS["C06"] = {"rule": MD_RULE, "trusted_base": MD_TB, "assumptions": ["the Lean model is tied to the Rust code by differential execution, not by translation", "expectation parsing, YAML and the Unicode letter class enter the model as per-case verdicts computed by the real code"]}
+
+CRAM_TB = [
+    KERNEL,
+    "the theorem statements in lean/ScrutModel/Props being a faithful reading of the property",
+    CORR,
+    "hand-written models lean/ScrutModel/Model/Cram.lean of CramParser::parse (src/parsers/cram.rs:53-95, incl. str::lines()) and lean/ScrutModel/Model/LineParser.lean of LineParser (src/parsers/line_parser.rs), tied to the code by behavioural correspondence only",
+    "expectation parsing (ExpectationMaker::parse succeeds or not) is a parameter of the model: the theorems hold for every expectation grammar; the harness instantiates it per document with the real maker evaluated on the indented line texts; Expectation::original_string() returning the line text is checked by correspondence",
+    "TestCaseConfig::default_cram / DocumentConfig::default_cram are transcribed as constants and compared field by field on every parsed test",
+    RUSTC,
+]
+CRAM_RULE = (
+    "every document of at most 4 (thorough 5) lines over a 23-token line alphabet whose neighbours differ by single spaces (indent 0-3, `$`/`$ `/`$  x`, `> y`/`>y`, trailing blanks, `[1]`/`[1] `/`[2147483648]`, `# c` indented or not, an unparsable `( (re)`, two titles) "
+    "and of at most 5 (thorough 6) lines over its 10-token core, through the real CramParser and the model; seeded documents rendered from an AST (titles, blanks, comments also inside tests, continuations, whitespace-only expectations, exit codes with leading zeros / i32::MAX; indentation 0-4) with the tests known by construction; "
+    "seeded raw line soups with CRLF, bare CR and missing final newline. Compared per test: title, shell expression, expectation originals, exit code, line number, configuration; document configuration; error kind and line. "
+    "Direct oracle: an independent block-structured reading of every document (+ the AST's own tests). non-trivial = at least one `$ ` line and at least two lines; distinct = distinct model op line"
+)
+PROPS["C07"] = {"rule": CRAM_RULE, "trusted_base": CRAM_TB, "assumptions": ["the Lean model is tied to the Rust code by differential execution, not by translation", "CramParser is constructed with a small indentation (the default 2; 0-4 are exercised)"]}
+
+ESC_TB = [
+    KERNEL,
+    "the theorem statements in lean/ScrutModel/Props being a faithful reading of the property",
+    CORR,
+    "hand-written models lean/ScrutModel/Model/Escaping.lean (src/escaping.rs: has_unprintable_*, byte_to_ascii, escaped_printable_*, escaped_expectation_*), EscapedFilter.lean (src/rules/escaped_filter.rs: unescape_tabs, resolve_escape_sequences_to_bytes incl. from_str_radix's leading '+'), RulesStr.lean (EqualRule, EqualNoEolRule, EscapedRule incl. the ` (no-eol)` stripping, trim_newlines/assure_newline), Utf8.lean (String::from_utf8 as a total decoder), tied to the code by behavioural correspondence only",
+    "char::is_other() (crate unicode_categories) is a parameter of the model; unicode-mode theorems assume AsciiContract (on ASCII: exactly 0x00..0x1f and 0x7f); the harness passes the real classification of every input character with each case and evaluates the printable oracle with the real is_other",
+    "String::from_utf8_lossy enters only through `encoded == escaped`: modelled as `decoded text == escaped` for valid UTF-8 and `false` for invalid UTF-8 (the lossy text then contains U+FFFD, the byte-wise rendering is pure ASCII); checked by the correspondence on every case",
+    "reading back goes through the public ExpectationMaker::parse of `<text> (escaped)` / `<text> (equal)`; that parse hands the text before the final ` (kind)` to the rule constructor is the subject of C08, exercised here on every case",
+    RUSTC,
+]
+ESC_RULE = (
+    "cases = (mode, line bytes) through the real Escaper::{has_unprintable, escaped_printable, escaped_expectation}, the written text parsed back through ExpectationMaker::parse and matched: "
+    "exhaustive over all strings of 0-2 bytes x both modes, all 3-symbol strings over a 24-symbol alphabet around the backslash x both modes, Unicode scalars alone / after a backslash / next to a control character in unicode mode "
+    "(quick: all below U+3000, the surrogate and plane boundaries and every 101st; thorough: every scalar), seeded random bytes and random valid UTF-8 with 0-2 trailing line feeds; "
+    "the decoder alone on every expression of up to 4 symbols over 16 (incl. malformed ones: ok/err class must agree) and random longer ones; the model's UTF-8 decoder against String::from_utf8 on all strings of 0-2 bytes, "
+    "3- and 4-byte strings over boundary bytes (thorough: all 3-byte strings) and damaged random text. Direct oracle on the real code: printable by the real is_other, matches(line+LF), escaped also matches(line), no match for ~50 single-byte edits of the content. "
+    "non-trivial = the line contains a byte outside 0x20..0x7e or a backslash (esc), the expression contains a backslash (unesc), a byte >= 0x80 (utf8); distinct = distinct model op line"
+)
+PROPS["C11"] = {"rule": ESC_RULE, "trusted_base": ESC_TB, "assumptions": [
+    "the Lean model is tied to the Rust code by differential execution, not by translation",
+    "lines contain no interior line feed (they are pieces of split_at_newline after trim_newlines)",
+    "AsciiContract isOther for unicode mode (checked on the real crate for all 128 ASCII characters by the exhaustive 1-byte stream)",
+]}
+
+RULES_TB = [
+    KERNEL,
+    "the theorem statements in lean/ScrutModel/Props/C04.lean being a faithful reading of the property (GlobRel / TokRel / Matches are the documented meanings)",
+    CORR,
+    "hand-written models lean/ScrutModel/Model/Glob.lean (GlobRule = wildmatch incl. `**` simplification and the crate's loop transliterated; CramGlobRule = token reading of glob_to_regex_string) and Model/RegexWrap.lean (the `^(?:e)$` wrap as AST construction over a regex fragment with position-based semantics), tied to the code by correspondence",
+    "the wildmatch crate and the regex crate (syntax, engine, Unicode handling) are dependencies: their behaviour is sampled exhaustively on the small scope, not proved; the transliterated wildmatch loop (wildLoop) is compared with the proved denotation (globGo) on every case by the driver, not by a theorem",
+    "the three Cram-compat clean-up passes of RegexRule::make are not modelled; the direct oracle compares the rule with the regex crate's own `\\A(?:e)\\z` for the cleaned expression (`unmake`)",
+    "lines are valid UTF-8 (List Char); decoding (lossy for glob) is outside the theorems",
+    RUSTC,
+]
+RULES_RULE = (
+    "glob: every pattern over {a,b,*,?} up to length 5 x every line over the same alphabet up to length 6 through ExpectationMaker::parse(\"<pat> (glob)\") for the default registry and for the Cram-compat registry (CramGlobRule registered as in make_expectation_maker(true)); "
+    "the same with 1 and 2 trailing newlines (length 4x4), with one multi-byte character (é), Cram escapes over {a,*,?,\\} 5x5; seeded random pairs over a 16-character pool incl. 2-4 byte characters and a combining mark. "
+    "regex: every expression of the fragment (atoms a b . ^ $, (?:..), *, concatenation, <=3 alternatives per level) with <= 5 nodes x every line over {a,b} up to length 4 (and 1-2 trailing newlines for <= 4 nodes) against searchB (wrap e); "
+    "direct oracle on these and on 40k seeded arbitrary expression strings (30-token pool incl. classes, quantifiers, escapes): RegexRule::matches == regex::bytes `\\A(?:cleaned)\\z`. "
+    "One case = one expression against its whole line enumeration. non-trivial = the expression has a wildcard / a top-level alternation and both matching and non-matching lines; distinct = distinct model op line"
+)
+PROPS["C04"] = {"rule": RULES_RULE, "trusted_base": RULES_TB, "assumptions": [
+    "the Lean model is tied to the Rust code by differential execution, not by translation",
+    "output lines are valid UTF-8 and contain no newline except possibly the last byte (split_at_newline); behaviour on undecodable lines is recorded in the histogram only",
+]}
+
 MANIFEST_TEXT = {
+    "C04": {
+        "text": "PATTERN KINDS. Machine-checked: wildmatch's matching (with `**` simplification) holds iff the pattern relates to the text by the documented relation GlobRel (`?` exactly one character, `*` any run, rest literal, whole text) for all patterns and texts (C04_glob_iff), hence a line matches a glob expectation iff the whole line without its final newline is an instance (C04_glob_line_partial, under IsLine); the Cram-compat glob likewise against its token reading with `\\*` `\\?` `\\\\` literal (C04_cram_glob_iff, C04_cram_glob_line_partial); an unanchored search for `^(?:e)$` succeeds iff e matches from position 0 to the end, for every e of the regex fragment incl. nested alternations and anchors (C04_regex_whole_line, C04_regex_line_partial), the executable search decides the relational semantics (C04_regex_search_decides); the pre-fix wrap `^e$` accepts a prefix or suffix for alternations (C04_old_wrap_prefix_or_suffix, C04_old_wrap_fails_on_witness: `a|b` vs `axxx`). Tie to code: exhaustive small-scope differential runs of the real GlobRule / CramGlobRule / RegexRule through ExpectationMaker::parse, reference matchers written from the documentation, and for regex the regex crate's own `\\A(?:e)\\z` on generated and arbitrary expressions.",
+        "design_ref": "DESIGN.md §6 C04",
+        "note": "Partial: (1) IsLine guard — the rules strip all trailing newlines, so `a (glob)` matches `a\\n\\n` (C04_glob_unguarded_fails_on_witness); such input never comes from split_at_newline. (2) lines that are not valid UTF-8 are outside the theorems (glob sees U+FFFD, regex-based rules cannot step over the byte). (3) the Cram-compat clean-up passes of RegexRule::make are not modelled; the direct oracle compares the rule with the expression as written whenever that is a valid regex: deliberate re-readings (`\\<` as literal `<`, `[` inside a class as a literal) are counted in the histogram, any other change is an oracle failure (open finding: escape_misused_character_class turns `[a]]` into the class `[a\\]]`, so `[a]] (regex)` accepts `a` and rejects `a]`, and makes `[a-]]` unparsable). The wildmatch and regex crates are trusted dependencies sampled by correspondence.",
+        "technique": "Lean 4 theorems (decision procedure = inductive specification) on executable models of wildmatch / glob-to-regex / regex wrap + exhaustive differential correspondence + regex-crate whole-line oracle",
+    },
+    "C11": {
+        "text": "Machine-checked (Lean 4, all byte strings without line feed, both modes): the text written for a line is printable - ascii mode: every character in 0x20..0x7e (C11_ascii_printable); unicode mode: no is_other character, under the contract that is_other on ASCII is exactly the control characters (C11_unicode_printable) - and lossless: read back as the kind it is written as (unmarked -> EqualRule, ` (escaped)` -> EscapedRule::make + matches) it matches the line with its line feed (escaped: also without) and every line it matches has exactly that content (C11_lossless_partial). Key lemmas: every piece the escaper writes is a token that the two decoder passes (unescape_tabs, resolve_escape_sequences_to_bytes) read as the bytes it was written for, tokens compose (Tok.*), and the UTF-8 decoder is sound (utf8Decode_sound). PARTIAL: guarded by `the escaped text does not end in \" (no-eol)\"` - EscapedRule::make strips that suffix, so content such as `x<0x01> (no-eol)` does not read back (C11_lossless_fails_on_witness; oracle class C11:no-eol-suffix-stripped, reported as known finding). Tie to code: exhaustive 0-2 byte strings and 3-symbol strings around the backslash in both modes, Unicode scalars (thorough: all 1.1 M) alone/after a backslash/next to a control character, random bytes and text, the decoder alone on all expressions up to 4 symbols, the UTF-8 decoder against String::from_utf8.",
+        "design_ref": "DESIGN.md §6 C11",
+        "note": "Trusted: kernel + 3 axioms, harness, statement reading. is_other is a parameter (AsciiContract assumed, real classification passed per case); from_utf8_lossy only via the equality test (see trusted_base). Defect repaired earlier by fix: b3e4df7 (unicode mode never doubled backslashes). Open finding: ` (no-eol)` suffix stripped by EscapedRule::make.",
+        "technique": "Lean 4 inverse-function proof (token-wise, two decoder passes) on executable model + exhaustive/differential correspondence + read-back oracle on the real code",
+    },
+    "C07": {
+        "text": "Machine-checked over the model of CramParser::parse + LineParser: parsing is total, failing only with one of the five line_parser errors (C07_no_crash); for every indentation >= 1 and every document built from titles, blank lines, # comments (also between the lines of a test), commands with > continuations, expectation lines (incl. empty / whitespace-only) and one [n] line per test, parse(render d) = exactly the tests written: one per `$ ` line, in order, command lines, expectation texts with only the indentation removed, exit code, 1-based line, title = last title line since the previous command, Cram defaults (C07_wellformed); for EVERY text that parses, each command/expectation text stems from an indented non-# line (C07_comments_inert, C07_comment_line_skipped) and every test carries default_cram, the document default_cram (C07_defaults, C07_defaults_values). PARTIAL: the title is the nearest preceding title line only when each title is followed by one command (C07_title_nearest_partial; witness T/$ a/$ b: C07_title_nearest_fails_on_witness); indented lines above the first command of a block are adopted by the next command instead of being rejected (C07_orphan_exit_code_fails_on_witness, C07_orphan_expectation_fails_on_witness). Tie to code: ~400k exhaustive small documents over a single-space-neighbour line alphabet + AST-directed and raw random documents through the real CramParser, all fields compared.",
+        "design_ref": "DESIGN.md §6 C07",
+        "note": "Trusted: Lean kernel + 3 standard axioms, the correspondence harness, statement reading. Expectation parsing is a parameter (C08 covers it). Oracle classes of the deviations: C07:title-not-nearest, C07:orphan-exit-code-adopted, C07:orphan-expectation-adopted.",
+        "technique": "Lean 4 theorems on an executable model of the Cram/line parser (round trip for documents by construction + loop invariants for all texts) + exhaustive differential correspondence",
+    },
+    "C06": {
+        "text": "Machine-checked for all documents: the Markdown parser model never reaches a panic (every slice of extract_code_block_start is on a character boundary, every line_index-1 is defined: C06_no_crash); the tokenizer always runs to the end and its tokens partition the document - every line in exactly one token, in order, with its own index, closing line = first line starting with the opening fence (C06_tokens_cover); unterminated front-matter, foreign and scrut blocks hold all remaining lines (C06_unterminated_*). PARTIAL: 'parse(render d) = d.tests' for the generator AST (count, order, shell expression, expectations, exit code, configuration, line number, title) is decided by the by-construction oracle on generated documents and all their line-prefixes, not proved. Tie to code: 1.04M documents per quick run (exhaustive <= 5 lines over a 15-line alphabet, exhaustive fence lines, AST-directed, prefixes, malformed) through the real MarkdownParser with 0 disagreements. Four stricter readings found by this check (C06:state-leak, C06:bare-long-fence, C06:info-string-whitespace, C06:config-dropped) were repaired by fix: commits; their witnesses stay in the harness as regression cases and as closed Lean examples.",
+        "design_ref": "DESIGN.md §6 C06",
+        "note": "Trusted: Lean kernel + 3 standard axioms, the correspondence harness, statement reading. Expectation grammar (C08), YAML (C17), config layering (C16) and \\p{L} are parameters fed from the real code per case. Defects repaired by fix: commits a8558a7, 2f2d0a7, 0557cd9, 41f3a85 (before this check) and d36f745, d82a4b7, 0c1f918 (found by it).",
+        "technique": "Lean 4 theorems on an executable model of tokenizer+parser+LineParser + differential correspondence (exhaustive small scope, AST-directed by-construction oracle, prefixes, malformed)",
+    },
     "C19": {
         "text": "Machine-checked (Lean 4, any diff, any max_surrounding_lines): every unmatched expectation and every line of every unexpected block is among the items the pretty renderer emits and among the -/+ lines of the unified diff, and the pretty renderer emits nothing that is not an entry of the diff (C19_all_shown_pretty, C19_all_shown_rendered, C19_only_differences_pretty, C19_all_shown_unified); none of the panicking operations of render_malformed_output (line_base, + max_surrounding_lines, lines[0], Decorator width - digits) fails for any diff satisfying C02's well-formedness with the test case's own expectations, hence for every diff the matcher can produce (C19_no_panic, C19_no_panic_matcher; the explicit domain is Dom, and C19_panics_outside_domain shows it is necessary for hand-built Diff values); space_start_index is a character boundary of every string, so the two slices of higlight_tailing_spaces succeed (C19_space_index; the pre-fix code fails on foo+U+3000 in the model: C19_old_space_index_failed_on_witness); outcomes that passed get no section in the pretty and diff renderings and every failed one gets its pretty section (C19_no_section_for_pass, C19_failed_has_section). Tie to code: all four renderers in-process on exhaustive small scopes (strings over an 11-symbol Unicode alphabet, all diff shapes up to length 7, all kind sequences up to 3) and seeded cases incl. diffs by the real DiffTool, arbitrary hand-built diffs, invalid UTF-8, 10^5-character lines; the rendered text is parsed back (number columns, symbols, hunk headers, section titles, summary) and compared with the model; direct oracles: no panic inside the domain, every difference on a line of its own with its full (escaped) text, JSON/YAML parse back with one entry per outcome and the right result.kind.",
         "design_ref": "DESIGN.md §6 C19",
@@ -185,12 +273,6 @@ MANIFEST_TEXT = {
         "design_ref": "DESIGN.md §6 C17",
         "note": "Trusted: kernel + axioms, harness, serde_yaml/libyaml/serde_json/humantime as reference. Partial: no general theorem for whole configurations. A total_timeout whose whole seconds are 900 is not serialised (None comes back; effective value after layering is 900 s again, a sub-second part is lost: class C17:default-total-timeout-not-serialised). Defect repaired earlier by fix: ccd71db (unescaped quotes/backslashes).",
         "technique": "Lean 4 theorems on executable models of humantime and of the one-liner renderer / flow-YAML subset + differential correspondence with serde_yaml + direct round-trip oracle on the real code",
-    },
-    "C06": {
-        "text": "Machine-checked for all documents: the Markdown parser model never reaches a panic (every slice of extract_code_block_start is on a character boundary, every line_index-1 is defined: C06_no_crash); the tokenizer always runs to the end and its tokens partition the document - every line in exactly one token, in order, with its own index, closing line = first line starting with the opening fence (C06_tokens_cover); unterminated front-matter, foreign and scrut blocks hold all remaining lines (C06_unterminated_*). PARTIAL: 'parse(render d) = d.tests' for the generator AST (count, order, shell expression, expectations, exit code, configuration, line number, title) is decided by the by-construction oracle on generated documents and all their line-prefixes, not proved. Tie to code: 1.04M documents per quick run (exhaustive <= 5 lines over a 15-line alphabet, exhaustive fence lines, AST-directed, prefixes, malformed) through the real MarkdownParser with 0 disagreements. Stricter readings that the code does not implement are reported as oracle classes with proved witnesses: C06:state-leak, C06:bare-long-fence, C06:info-string-whitespace, C06:config-dropped.",
-        "design_ref": "DESIGN.md §6 C06",
-        "note": "Trusted: Lean kernel + 3 standard axioms, the correspondence harness, statement reading. Expectation grammar (C08), YAML (C17), config layering (C16) and \\p{L} are parameters fed from the real code per case. Four defects repaired earlier by fix: commits (a8558a7, 2f2d0a7, 0557cd9, 41f3a85).",
-        "technique": "Lean 4 theorems on an executable model of tokenizer+parser+LineParser + differential correspondence (exhaustive small scope, AST-directed by-construction oracle, prefixes, malformed)",
     },
     "C12": {
         "text": "PARTIAL. Machine-checked: (1) for ANY shell semantics and carrier, if restoring what was persisted is observationally equivalent (CarrierTransparent), one-process-per-test execution of any history yields exactly the outputs of a single session, and detached steps leave nothing behind (C12_refines_single_session, C12_detached_leaves_nothing); (2) for the variable carrier as the template implements it, the refinement holds for every history that creates no read-only variable and never unsets an inherited variable (C12_vars_carried_partial); both excluded classes are proved to deviate (witness theorems) and are listed as known findings, reproduced against real bash on every run. That bash + the template are transparent for the other state classes (functions, aliases, shopt/set, arrays, cwd, dirstack, quoting) is sampled on every run against a single bash session (961 exhaustive pairs + seeded longer histories), not proved.",
@@ -255,7 +337,7 @@ MANIFEST_TEXT = {
 }
 
 # properties whose machinery is merged but being brought up to date with fix commits: not claimed yet
-PENDING = {"C06", "C13", "C17"}
+PENDING = {"C06", "C07", "C13", "C17"}
 
 WIP = "not yet claimed: model, theorems and correspondence for this property are still being built (see DESIGN.md §11); nothing is asserted about it"
 NOT_APPLICABLE = [{"property_id": "C%02d" % i, "reason": WIP} for i in range(1, 21) if "C%02d" % i not in PROPS or "C%02d" % i in PENDING]
